@@ -313,7 +313,40 @@ def ok_recorded(P, R):
     R.floor('C11.MPT.2', 2, 'OK reply edges')
 
 
+def ok_query(P, R, rule='C11.GRD.4'):
+    """The xreply_ok criterion is "the named service said OK": the query function answers 1 whenever the service's
+    bit is in the client's ok mask - every other result is returned only after that bit has been tested and found
+    clear (a re-sent query or any other state must not hide an OK already given), and 1 only when it is set."""
+    f = P.fn('iauth_xreply_ok')
+    if f is None:
+        raise AnalysisBroken('iauth_xreply_ok has vanished')
+    def okrel(g):
+        l, op, rr = g
+        return isinstance(l, dict) and l.get('k') == 'bin' and l.get('op') == '&' and any(is_field(x, 'ok_mask') for x in walk(l)) and const_of(rr) == 0 and op in ('==', '!=')
+    # returns reachable after the name comparison
+    cmpb = [s for s in f.calls() if s.ev.get('callee') in ('strcasecmp', 'strcmp')]
+    if not cmpb:
+        raise AnalysisBroken('iauth_xreply_ok no longer compares the service name')
+    n = 0
+    for s in f.sites():
+        if s.ev['k'] != 'ret':
+            continue
+        gs = f.guards(s.bid)
+        named = any(isinstance(g[0], dict) and g[0].get('k') == 'callref' and g[0].get('callee') in ('strcasecmp', 'strcmp') and g[1] == '==' and const_of(g[2]) == 0 for g in gs)
+        if not named:
+            continue
+        n += 1
+        v = const_of(s.ev.get('val'))
+        oks = [g for g in gs if okrel(g)]
+        if v == 1:
+            R.ob(rule, any(g[1] == '!=' for g in oks), s, 'the result 1 ("OK was received") is returned only when the service\'s bit is in the ok mask', key='okq:1')
+        else:
+            R.ob(rule, any(g[1] == '==' for g in oks), s, 'the result %s is returned only after the ok mask was tested and the service\'s bit found clear' % sx(s.ev.get('val')), key='okq:%s' % sx(s.ev.get('val')))
+    R.floor(rule, 3, 'results for a named service')
+
+
 def run(P, R, tier):
+    ok_query(P, R)
     ok_recorded(P, R)
     H = compile_pass(P, R)
     comparator(P, R)
